@@ -6,6 +6,7 @@
   `dateOfYo y o` is the packed word `y·8192 + o·16 + flagsOf y` of the o-th day of year y.
 -/
 import Chrono.Proofs.DateL
+import Chrono.Proofs.IsoL
 
 namespace Chrono.Props.C01
 open Chrono Chrono.M Chrono.Spec Chrono.Proofs Chrono.Extracted
@@ -111,6 +112,98 @@ example : Date.from_ymd_opt 2024 2 29 = .ok (some (dateOfYo 2024 60)) ∧
     Date.from_ymd_opt 2023 2 29 = .ok none ∧ Date.from_ymd_opt 262143 1 1 = .ok none ∧
     Date.from_yo_opt (-262143) 1 = .ok (some Date.MIN) ∧
     Date.succ_opt Date.MAX = .ok none ∧ (yearLen 2024 = 366 ∧ validYmd 2024 2 29 = true) := by
+  decide +kernel
+
+/-! ### ISO 8601 week dates (specification: Spec/IsoSpec.lean and `isoThursday` of Spec/Calendar.lean,
+written with day numbers only; helper lemmas: Proofs/IsoFin.lean, Proofs/IsoL.lean) -/
+
+/-- exactly one year-ordinal form per day number: a (year, ordinal) pair with an existing ordinal is
+determined by its day number (so the `(Y, ot)` of `iso_week_spec` below is unique) -/
+theorem yo_form_unique (y1 y2 : Int) (o1 o2 : Nat) (h1 : 1 ≤ o1 ∧ o1 ≤ yearLen y1)
+    (h2 : 1 ≤ o2 ∧ o2 ≤ yearLen y2) (h : dayNumYo y1 o1 = dayNumYo y2 o2) : y1 = y2 ∧ o1 = o2 :=
+  yo_unique y1 y2 o1 o2 h1 h2 h
+
+/-- ISO-week accessor, every date of the range: `iso_week` never panics and returns the ISO 8601
+week of the date's day number `n`: the Thursday `isoThursday n` of `n`'s Monday-based week is the
+`ot`-th day of calendar year `Y`; the ISO year is `Y` and the week number is `(ot − 1)/7 + 1`
+(so week 1 is the week with the year's first Thursday, i.e. the week containing 4 January).  The low
+four bits of the packed value are the flags of `Y`. -/
+theorem iso_week_spec (y : Int) (o : Nat) (hy : MIN_YEAR ≤ y ∧ y ≤ MAX_YEAR)
+    (ho : 1 ≤ o ∧ o ≤ yearLen y) :
+    ∃ (ywf Y : Int) (ot : Nat), Date.iso_week (dateOfYo y o) = .ok ywf ∧
+      1 ≤ ot ∧ ot ≤ yearLen Y ∧ dayNumYo Y ot = isoThursday (dayNumYo y o) ∧
+      IsoWeek.year ywf = Y ∧ IsoWeek.week ywf = ((ot - 1) / 7 + 1 : Nat) ∧
+      IsoWeek.week0 ywf = ((ot - 1) / 7 : Nat) ∧ ywf % 16 = flagsOf Y := by
+  obtain ⟨Y, ot, h1, h2, h3, h4⟩ := iso_week_spec' y o hy ho
+  have hl := yearLen_ge Y
+  have hf := (flagsOf_facts Y).1
+  obtain ⟨f1, f2⟩ := ywf_fields Y ((ot - 1) / 7 + 1) (flagsOf Y) (by omega) hf
+  refine ⟨_, Y, ot, h4, h1, h2, h3, f1, f2, ?_, by omega⟩
+  unfold IsoWeek.week0; unfold IsoWeek.week at f2; rw [f2]; push_cast; omega
+
+/-- the number of ISO weeks of **every** year: week `w` exists in ISO year `y` (its Thursday is a
+day of calendar year `y`) exactly for `1 ≤ w ≤ 52` or `53` as the calendar rule says, and chrono's
+bit mask `nisoweeks` applied to the looked-up flags is that number -/
+theorem iso_weeks_in_year (y : Int) (w : Nat) :
+    (isoWeekExists y w ↔ (1 ≤ w ∧ w ≤ isoWeeksInYear y)) ∧
+    YearFlags.nisoweeks (YearFlags.from_year y) = isoWeeksInYear y := by
+  rw [from_year_spec, ← nisoweeks_spec]
+  exact ⟨isoWeekExists_iff y w, rfl⟩
+
+/-- ISO year-week-weekday constructor, every argument tuple (all integers `y` including `i32::MIN`
+and `i32::MAX`, all naturals `w`, all weekdays): never panics; returns nothing exactly when ISO year
+`y` has no week `w` or the denoted day `isoDayNum y w wd` (Monday of week 1 = Monday of the week
+containing 4 January, plus `7·(w−1) + wd`) lies outside [MIN, MAX]; otherwise returns the date of
+the range with that day number -/
+theorem ctor_isoywd (y : Int) (w : Nat) (wd : Weekday) :
+    ∃ r, Date.from_isoywd_opt y w wd = .ok r ∧
+      (∀ d, r = some d → ∃ Y o, d = dateOfYo Y o ∧ MIN_YEAR ≤ Y ∧ Y ≤ MAX_YEAR ∧ 1 ≤ o ∧
+        o ≤ yearLen Y ∧ dayNumYo Y o = isoDayNum y w wd.toNat) ∧
+      (r = none ↔ ¬ (isoWeekExists y w ∧ dayNumYo MIN_YEAR 1 ≤ isoDayNum y w wd.toNat ∧
+        isoDayNum y w wd.toNat ≤ dayNumYo MAX_YEAR 365)) := ctor_isoywd' y w wd
+
+/-- the constructed date has exactly the requested ISO week date: accessor and constructor agree -/
+theorem isoywd_roundtrip (y : Int) (w : Nat) (wd : Weekday) (d : Date)
+    (h : Date.from_isoywd_opt y w wd = .ok (some d)) :
+    ∃ ywf, d.iso_week = .ok ywf ∧ IsoWeek.year ywf = y ∧ IsoWeek.week ywf = w ∧ d.weekday = wd :=
+  isoywd_roundtrip' y w wd d h
+
+/-- ISO weeks compare (derived order on the packed `ywf`) in chronological order: monotone in the
+day number, strictly increasing only with the day number, and equal exactly for days of the same
+Monday-based week -/
+theorem iso_week_order (y1 y2 : Int) (o1 o2 : Nat) (hy1 : MIN_YEAR ≤ y1 ∧ y1 ≤ MAX_YEAR)
+    (hy2 : MIN_YEAR ≤ y2 ∧ y2 ≤ MAX_YEAR) (h1 : 1 ≤ o1 ∧ o1 ≤ yearLen y1)
+    (h2 : 1 ≤ o2 ∧ o2 ≤ yearLen y2) :
+    ∃ a b, Date.iso_week (dateOfYo y1 o1) = .ok a ∧ Date.iso_week (dateOfYo y2 o2) = .ok b ∧
+      (dayNumYo y1 o1 ≤ dayNumYo y2 o2 → a ≤ b) ∧
+      (a < b → dayNumYo y1 o1 < dayNumYo y2 o2) ∧
+      (a = b ↔ isoThursday (dayNumYo y1 o1) = isoThursday (dayNumYo y2 o2)) :=
+  iso_week_order' y1 y2 o1 o2 hy1 hy2 h1 h2
+
+/-- finding #1 (repaired in the tree under test): with the pinned source's plain `year - 1` the
+constructor panics at `i32::MIN` (whose week 1 starts in the previous year), where the repaired code
+returns `None`; elsewhere the two agree.  (`year + 1` cannot overflow: `i32::MAX` is a 52-week common
+year starting on a Monday, so none of its weeks reaches into the next year.) -/
+theorem isoywd_pinned_overflow :
+    isoywdPinned (-2147483648) 1 .mon = .panic ∧ Date.from_isoywd_opt (-2147483648) 1 .mon = .ok none ∧
+    isoywdPinned 2147483647 52 .sun = .ok none ∧ Date.from_isoywd_opt 2147483647 52 .sun = .ok none ∧
+    isoywdPinned 2015 1 .mon = Date.from_isoywd_opt 2015 1 .mon := by decide +kernel
+
+/-- non-vacuity: 2015-W01-Mon is 2014-12-29 (previous calendar year), 2020 has a week 53 reaching
+into 2021, 2021 has none; MIN is the Thursday of week 1 of MIN_YEAR (Monday..Wednesday of that week
+are out of range) and MAX is the Monday of week 1 of ISO year MAX_YEAR + 1 -/
+example : Date.from_isoywd_opt 2015 1 .mon = .ok (some (dateOfYo 2014 363)) ∧
+    Date.iso_week (dateOfYo 2014 363) = .ok (2015 * 1024 + 1 * 16 + flagsOf 2015) ∧
+    Date.from_isoywd_opt 2020 53 .sun = .ok (some (dateOfYo 2021 3)) ∧
+    Date.from_isoywd_opt 2021 53 .mon = .ok none ∧ Date.from_isoywd_opt 2021 0 .mon = .ok none ∧
+    isoWeeksInYear 2020 = 53 ∧ isoWeeksInYear 2021 = 52 ∧
+    isoDayNum 2015 1 0 = dayNumYo 2014 363 ∧ isoThursday (dayNumYo 2014 363) = dayNumYo 2015 1 ∧
+    Date.from_isoywd_opt MIN_YEAR 1 .thu = .ok (some Date.MIN) ∧
+    Date.from_isoywd_opt MIN_YEAR 1 .wed = .ok none ∧
+    Date.from_isoywd_opt (MAX_YEAR + 1) 1 .mon = .ok (some Date.MAX) ∧
+    Date.from_isoywd_opt (MAX_YEAR + 1) 1 .tue = .ok none ∧
+    (Date.iso_week Date.MAX).isOk = true ∧
+    Date.from_isoywd_opt MAX_YEAR 53 .mon = .ok none := by
   decide +kernel
 
 end Chrono.Props.C01
